@@ -114,8 +114,14 @@ class MetadataPdu(AbstractFileDirectiveBase):
 
     @options.setter
     def options(self, options: Optional[List[CfdpTlv]]):
+        old_options = self._options
         self._options = options
-        self._calculate_directive_field_len()
+        try:
+            self._calculate_directive_field_len()
+        except ValueError:
+            # PDU data field would become too long: refuse the assignment, nothing has changed
+            self._options = old_options
+            raise
 
     @property
     def directive_param_field_len(self):
@@ -150,12 +156,18 @@ class MetadataPdu(AbstractFileDirectiveBase):
 
     @source_file_name.setter
     def source_file_name(self, source_file_name: Optional[str]):
+        old_source_file_name_lv = self._source_file_name_lv
         if source_file_name is None:
             self._source_file_name_lv = CfdpLv(value=bytes())
         else:
             source_file_name_as_bytes = source_file_name.encode("utf-8")
             self._source_file_name_lv = CfdpLv(value=source_file_name_as_bytes)
-        self._calculate_directive_field_len()
+        try:
+            self._calculate_directive_field_len()
+        except ValueError:
+            # PDU data field would become too long: refuse the assignment, nothing has changed
+            self._source_file_name_lv = old_source_file_name_lv
+            raise
 
     @property
     def dest_file_name(self) -> Optional[str]:
@@ -168,12 +180,18 @@ class MetadataPdu(AbstractFileDirectiveBase):
 
     @dest_file_name.setter
     def dest_file_name(self, dest_file_name: Optional[str]):
+        old_dest_file_name_lv = self._dest_file_name_lv
         if dest_file_name is None:
             self._dest_file_name_lv = CfdpLv(value=bytes())
         else:
             dest_file_name_as_bytes = dest_file_name.encode("utf-8")
             self._dest_file_name_lv = CfdpLv(value=dest_file_name_as_bytes)
-        self._calculate_directive_field_len()
+        try:
+            self._calculate_directive_field_len()
+        except ValueError:
+            # PDU data field would become too long: refuse the assignment, nothing has changed
+            self._dest_file_name_lv = old_dest_file_name_lv
+            raise
 
     def pack(self) -> bytearray:
         self.pdu_file_directive._verify_file_len(self.params.file_size)
